@@ -126,8 +126,18 @@ class Aggregator:
                            '(normalised schedule segments, every call result, per-thread steps)')
             cov['distinct_preemption_pairs(line preempted at, function that ran in the gap)'] = len(self.pairs)
             cov['distinct_lines_preempted_at'] = len({p[0] for p in self.pairs})
-            cov['context_bound_2_sweeps'] = self.sweeps[:50]
+            cov['context_bound_2_sweeps'] = [s for s in self.sweeps if not s.get('fpair')][:50]
             cov['context_bound_2_sweeps_total'] = len(self.sweeps)
+            mx = [s for s in self.sweeps if s.get('fpair')]
+            cov['function_pair_matrix'] = {
+                'rule': 'ordered pairs (A function, B function) of the 13 public functions swept at every line boundary of A '
+                        '(every bytecode boundary when A is short) with B run to completion in the gap; B rotates with VERIF_SEED, '
+                        'so 13 consecutive seeds of the quick tier, or one thorough run, cover all 169',
+                'ordered_pairs_swept': len({tuple(s['fpair']) for s in mx if s['points']}), 'of': 169,
+                'points': sum(s['points'] for s in mx),
+                'sweeps': [{'A': s['A'], 'B': s['B'], 'gran': s.get('gran'), 'temp_locality': s.get('kind'), 'points': s['points'],
+                            'of': s['of'], 'exhaustive': s['exhaustive']} for s in mx][:60],
+            }
         else:
             cov['rule'] = ('histories of 3-25 (quick) / 3-60 (thorough) ops drawn from VERIF_SEED; even run indices are '
                            'fault-free (call/repeat/alias), odd ones inject faults (caller mutation of results and arguments, '
